@@ -123,7 +123,7 @@ struct MipHarness : Harness {
     fflush(stdout); fflush(stderr);
     pid_t g = fork();
     if (g < 0) return false;
-    if (g == 0) { signal(SIGALRM, SIG_DFL); alarm(30); ctx.reset_for_branch(); body(); ctx.flush(false); _exit(0); }
+    if (g == 0) { kit_cpu_deadline(30); ctx.reset_for_branch(); body(); ctx.flush(false); _exit(0); }
     int st = 0;
     while (waitpid(g, &st, 0) < 0 && errno == EINTR) {}
     if (ctx.sh) ctx.sh->in_branch = 0;
